@@ -156,6 +156,12 @@ def uniqueTyAux (seen : List Ty) : List Ty → List Ty
 def uniqueTy (ts : List Ty) : List Ty :=
   if ts.length < 2 then ts else uniqueTyAux [] ts
 
+/-- `NewVariantType(ts...)`: no member → the default Variant, one member → that member -/
+def mkVariant : List Ty → Ty
+  | [] => .variant []
+  | [t] => t
+  | ts => .variant ts
+
 /-! ### Generic / generalize -/
 mutual
 /-- `types.generalize` -/
@@ -179,7 +185,7 @@ def generalize : Ty → Ty
   | .typ t => .typ (genericType t)
   | .struct ms => .struct (genericM ms)
   | .tuple ts g => .tuple (generalizeL ts) g
-  | .variant ts => .variant (uniqueTy (generalizeL ts))
+  | .variant ts => mkVariant (uniqueTy (generalizeL ts))
   | t => t
 /-- `px.GenericType` -/
 def genericType : Ty → Ty
@@ -197,7 +203,7 @@ def genericType : Ty → Ty
   | .typ t => .typ (genericType t)
   | .struct ms => .struct (genericM ms)
   | .tuple ts g => .tuple (generalizeL ts) g
-  | .variant ts => .variant (uniqueTy (generalizeL ts))
+  | .variant ts => mkVariant (uniqueTy (generalizeL ts))
   | t => t
 def generalizeL : List Ty → List Ty
   | [] => []
@@ -213,12 +219,6 @@ def mkEnum (vs : List String) (ci : Bool) : Ty :=
   if vs.isEmpty then .enum [] false else .enum (if ci then vs.map cfg.lower else vs) ci
 /-- `NewStringType(rng, "")` -/
 def mkStr (r : Rng) : Ty := if r == Rng.pos then .str else .strSz r
-/-- `NewVariantType(ts...)` -/
-def mkVariant : List Ty → Ty
-  | [] => .variant []
-  | [t] => t
-  | ts => .variant ts
-
 /-- the tail of `commonType` -/
 def commonTail (a b : Ty) : Ty :=
   if asg cfg sfh .numeric a && asg cfg sfh .numeric b then .numeric
